@@ -394,7 +394,7 @@ impl Property for C09 {
     fn budget(&self, tier: Tier) -> Budget {
         match tier {
             Tier::Quick => Budget { release: 4_500_000, dbg: 1_500_000, workers: 8 },
-            Tier::Thorough => Budget { release: 40_000_000, dbg: 10_000_000, workers: 16 },
+            Tier::Thorough => Budget { release: 160_000_000, dbg: 40_000_000, workers: 16 },
         }
     }
     fn technique(&self) -> &'static str {
